@@ -367,11 +367,30 @@ impl Optimizer {
                                 right_keys,
                                 output_schema,
                             }
-                        } else if refs_right && !refs_left {
-                            // Predicate only references right side - push down to right
-                            // Need to adjust column indices
-                            let adjusted_predicate =
-                                Self::adjust_predicate_columns(&predicate, -(left_cols as i32));
+                        } else if refs_right
+                            && !refs_left
+                            && Self::right_column_map(
+                                left_cols,
+                                right.output_schema().len(),
+                                &right_keys,
+                                output_schema.len(),
+                            )
+                            .is_some_and(|m| pred_cols.iter().all(|&c| c - left_cols < m.len()))
+                        {
+                            // Predicate only references right side - push down to right.
+                            // Output column `c` must be translated to the right input's
+                            // own column numbering (the join drops the right key columns).
+                            let right_cols = Self::right_column_map(
+                                left_cols,
+                                right.output_schema().len(),
+                                &right_keys,
+                                output_schema.len(),
+                            )
+                            .unwrap_or_default();
+                            let adjusted_predicate = Self::remap_predicate_columns(
+                                &predicate,
+                                &|c: usize| right_cols[c - left_cols],
+                            );
                             IRNode::Join {
                                 left,
                                 right: Box::new(IRNode::Filter {
@@ -521,9 +540,35 @@ impl Optimizer {
         }
     }
 
+    /// For a join whose output has `out_len` columns, map position `k` among the
+    /// output columns that come from the right input to the right input's own
+    /// column index. The join operator emits the left columns followed by the
+    /// right input's NON-KEY columns; a plan that declares the full concatenation
+    /// keeps every right column. Returns None if the declared width matches neither.
+    fn right_column_map(
+        left_cols: usize,
+        right_len: usize,
+        right_keys: &[usize],
+        out_len: usize,
+    ) -> Option<Vec<usize>> {
+        let non_key: Vec<usize> = (0..right_len).filter(|j| !right_keys.contains(j)).collect();
+        if out_len == left_cols + non_key.len() {
+            Some(non_key)
+        } else if out_len == left_cols + right_len {
+            Some((0..right_len).collect())
+        } else {
+            None
+        }
+    }
+
     /// Adjust column indices in a predicate by an offset
     fn adjust_predicate_columns(predicate: &Predicate, offset: i32) -> Predicate {
-        let adjust = |col: usize| -> usize { ((col as i32) + offset) as usize };
+        Self::remap_predicate_columns(predicate, &|col: usize| ((col as i32) + offset) as usize)
+    }
+
+    /// Rewrite the column indices of a predicate through `map`
+    fn remap_predicate_columns(predicate: &Predicate, map: &dyn Fn(usize) -> usize) -> Predicate {
+        let adjust = |col: usize| -> usize { map(col) };
 
         match predicate {
             Predicate::ColumnEqConst(col, val) => Predicate::ColumnEqConst(adjust(*col), *val),
@@ -570,12 +615,12 @@ impl Optimizer {
                 Predicate::ArithCompareConst(expr.clone(), op.clone(), *val, new_var_map)
             }
             Predicate::And(left, right) => Predicate::And(
-                Box::new(Self::adjust_predicate_columns(left, offset)),
-                Box::new(Self::adjust_predicate_columns(right, offset)),
+                Box::new(Self::remap_predicate_columns(left, map)),
+                Box::new(Self::remap_predicate_columns(right, map)),
             ),
             Predicate::Or(left, right) => Predicate::Or(
-                Box::new(Self::adjust_predicate_columns(left, offset)),
-                Box::new(Self::adjust_predicate_columns(right, offset)),
+                Box::new(Self::remap_predicate_columns(left, map)),
+                Box::new(Self::remap_predicate_columns(right, map)),
             ),
             Predicate::True => Predicate::True,
             Predicate::False => Predicate::False,
